@@ -152,6 +152,8 @@ type Case struct {
 	TwinRef *Case `json:"-"`
 	// ShadowSkip exempts the case from the generic shadow run (cost control); TwinRef stays usable by property-specific monitors.
 	ShadowSkip bool `json:"-"`
+	// TwinKeep makes the case part of the default-root phase regardless of sampling.
+	TwinKeep bool `json:"-"`
 }
 
 func (c *Case) Clone() *Case {
